@@ -99,57 +99,49 @@ end merkle
 section checksum
 open Relic.PEChecksum
 
-/-- **checksum_even_splits** (proved part).  Starting from any state that has not seen an odd write,
-    a sequence of even-sized writes followed by one last write of any size leaves the hasher in the
-    same state (sum, size, position, odd flag) as one write of the concatenation — *provided no write
-    boundary falls on the first byte of the checksum field or in its middle* (`p`, `p+2` relative to
-    the current position).  Without that proviso the statement is false for the code as written:
-    see `checksum_even_splits_full_false`. -/
-theorem checksum_even_splits_partial (s : St) (ws : List Bytes) (last : Bytes) (ho : s.odd = false)
-    (hev : ∀ w ∈ ws, w.length % 2 = 0)
-    (hb : ∀ p, s.cksumPos = some p → ∀ k, k < ws.length →
-      (ws.take (k + 1)).flatten.length ≠ p ∧ (ws.take (k + 1)).flatten.length ≠ p + 2) :
+/-- **checksum_even_splits.** (code after fix F20)  Starting from any state that has not seen an odd
+    write, a sequence of even-sized writes followed by one last write of any size leaves the hasher in
+    the same state (sum, size, position, odd flag) as one write of the concatenation.  No side
+    condition: the checksum field is located by absolute position, so a write boundary on it or in
+    its middle makes no difference. -/
+theorem checksum_even_splits (s : St) (ws : List Bytes) (last : Bytes) (ho : s.odd = false)
+    (hev : ∀ w ∈ ws, w.length % 2 = 0) :
     writes s (ws ++ [last]) = write s (ws.flatten ++ last) :=
-  writes_append_last s ws last ho hev hb
+  writes_append_last s ws last ho hev
 
-example : writes (new 2) [[1, 2], [3, 4, 5, 6], [7]] = write (new 2) [1, 2, 3, 4, 5, 6, 7] :=
-  checksum_even_splits_partial (new 2) [[1, 2], [3, 4, 5, 6]] [7] rfl (by simp) (by
-    intro p hp k hk
-    have : p = 90 := by simp [new] at hp; omega
-    subst this
-    match k, hk with
-    | 0, _ => simp
-    | 1, _ => simp)
+/-- the instance for a fresh `NewPEChecksum(peStart)` -/
+theorem checksum_even_splits_new (peStart : Int) (ws : List Bytes) (last : Bytes)
+    (hev : ∀ w ∈ ws, w.length % 2 = 0) :
+    writes (new peStart) (ws ++ [last]) = write (new peStart) (ws.flatten ++ last) :=
+  writes_append_last (new peStart) ws last rfl hev
 
-/-- the statement as the design had it: even-sized writes before the last one never change the sum -/
-def checksum_even_splits_full : Prop :=
+-- the boundary on the field (offset 90) and in its middle (92): the cases the original code got wrong
+example : writes (new 2) [List.replicate 90 1, [1, 1]] = write (new 2) (List.replicate 92 1) :=
+  checksum_even_splits_new 2 [List.replicate 90 1] [1, 1] (by simp)
+example : writes (new 2) [List.replicate 92 7, [1, 2, 3]] = write (new 2) (List.replicate 92 7 ++ [1, 2, 3]) :=
+  checksum_even_splits_new 2 [List.replicate 92 7] [1, 2, 3] (by simp)
+
+/-- the same statement about the code *before* the fix -/
+def checksum_even_splits_orig_full : Prop :=
   ∀ (peStart : Int) (ws : List Bytes) (last : Bytes), (∀ w ∈ ws, w.length % 2 = 0) →
-    (writes (new peStart) (ws ++ [last])) = write (new peStart) (ws.flatten ++ last)
+    (writesOrig (newOrig peStart) (ws ++ [last])) = writeOrig (newOrig peStart) (ws.flatten ++ last)
 
-/-- **the full statement is false for the code as written**: `peStart = 2` (checksum field at offset 90),
-    92 bytes of 0x01 delivered as 90 + 2 — the field is not skipped because `ckpos == n` is consumed by
-    the write that ends exactly at the field. -/
-theorem checksum_even_splits_full_false : ¬ checksum_even_splits_full := by
+/-- **the original code was split-dependent** (finding F20): `peStart = 2` (checksum field at offset
+    90), 92 bytes of 0x01 delivered as 90 + 2 — the field is not skipped because `ckpos == n` is
+    consumed by the write that ends exactly at the field. -/
+theorem checksum_even_splits_orig_false : ¬ checksum_even_splits_orig_full := by
   intro h
   have := h 2 [List.replicate 90 1] [1, 1] (by simp)
   revert this
   decide +kernel
 
 /-- **checksum_odd_then_write.** After an odd-sized write every further `Write` — even an empty one —
-    returns the error "odd write" and leaves no way to obtain a sum that silently covers more data. -/
+    returns the error "odd write"; a sum that silently covers more data cannot be obtained. -/
 theorem checksum_odd_then_write (s : St) (d e : Bytes) (ho : s.odd = false) (hd : d.length % 2 = 1) :
     ∃ s1, write s d = .ok s1 ∧ s1.odd = true ∧ write s1 e = .err "odd-write" := by
-  cases h : write s d with
-  | ok s1 =>
-    have hodd : s1.odd = true := by
-      unfold write at h
-      simp only [ho, Bool.false_eq_true, if_false] at h
-      injection h with h
-      rw [← h]; simp [hd]
-    exact ⟨s1, rfl, hodd, by simp [write, hodd]⟩
-  | err x => unfold write at h; simp [ho] at h
-  | panic x => unfold write at h; simp [ho] at h
-  | diverge => unfold write at h; simp [ho] at h
+  obtain ⟨s1, h1, hodd, _⟩ := write_ok s d ho
+  have hodd' : s1.odd = true := by rw [hodd]; simp [hd]
+  exact ⟨s1, h1, hodd', by simp [write, hodd']⟩
 
 example : ∃ s1, write (new 0) [1, 2, 3] = .ok s1 ∧ s1.odd = true ∧ write s1 [] = .err "odd-write" :=
   checksum_odd_then_write (new 0) [1, 2, 3] [] rfl rfl
